@@ -1,4 +1,4 @@
-(* CsvProofs.v — the statements of C09 assembled from CsvSpecProofs / CsvWriterProofs / CsvReaderProofs. *)
+(* CsvProofs.v — the statements of C09 assembled from CsvSpecProofs / CsvWriterProofs / CsvReaderProofs / CsvStreamProofs. *)
 From BS Require Import Base CsvSpec CsvSpecProofs CsvModel CsvWriterProofs CsvReaderProofs CsvStreamProofs.
 From Coq Require Import ZifyBool ZifyN ZifyNat.
 Ltac Zify.zify_post_hook ::= Z.div_mod_to_equations.
@@ -18,56 +18,54 @@ Lemma separator_checked_everywhere : forall k sep rows keys text K,
   csv_load_stream K sep keys text = Err InvalidOptions.
 Proof. intros. unfold csv_save, csv_load, csv_load_stream. rewrite H. auto. Qed.
 
-(* ---------- the full-strength statements (those the current code falsifies are refuted below) ---------- *)
+(* ---------- writer ---------- *)
 
-Definition writer_rfc_statement : Prop :=
-  forall sep hdr rows, allowed sep -> rows <> [] -> hdr <> [] -> uniform hdr rows ->
+Lemma writer_rfc : forall sep hdr rows, allowed sep -> rows <> [] -> hdr <> [] -> uniform hdr rows ->
   exists text, csv_write sep hdr rows = Ok text /\ rfc_parse sep text = Some (hdr :: rows).
+Proof. exact csv_write_rfc. Qed.
 
-Definition writer_quotes_iff_needed_statement : Prop :=
-  forall sep hdr rows, allowed sep -> rows <> [] -> hdr <> [] -> uniform hdr rows ->
+Lemma writer_quotes_iff_needed : forall sep hdr rows, allowed sep -> rows <> [] -> hdr <> [] -> uniform hdr rows ->
   exists text, csv_write sep hdr rows = Ok text /\
     render sep (map (min_choice sep) (hdr :: rows)) true (hdr :: rows) = Some text.
+Proof. exact csv_write_is_min_rendering. Qed.
 
-Definition reader_rfc_statement : Prop :=
-  forall sep chs final hdr rows text keys, allowed sep -> NoDup hdr -> uniform hdr rows ->
-  render sep chs final (hdr :: rows) = Some text ->
-  csv_load sep keys text = Ok (select hdr keys rows).
+Lemma writer_field_quotes_iff_needed : forall sep f out,
+  write_escaped sep f out = out ++ (if needs_quote sep f then quoted f else f).
+Proof. exact write_escaped_iff_needed. Qed.
 
-Definition reader_width_statement : Prop :=
-  forall sep chs final hdr recs text keys, allowed sep ->
-  render sep chs final (hdr :: recs) = Some text -> Exists (fun r => length r <> length hdr) recs ->
-  csv_load sep keys text = Err ParsingError.
+Lemma writer_stream_same : forall bom sep hdr rows, allowed sep -> rows <> [] -> uniform hdr rows ->
+  exists text, csv_write sep hdr rows = Ok text /\
+               csv_write_stream bom sep hdr rows = Ok ((if bom then utf8_bom else []) ++ text).
+Proof.
+  intros bom sep hdr rows A R U. exists (lib_text sep (hdr :: rows)).
+  split; [apply csv_write_closed | apply csv_write_stream_closed]; assumption.
+Qed.
 
+(* F22: a table without rows.  The statement that its header survives is false on the whole domain: nothing is written *)
+Definition writer_norows_statement : Prop :=
+  forall sep hdr, allowed sep -> hdr <> [] ->
+  exists text, csv_write sep hdr [] = Ok text /\ rfc_parse sep text = Some [hdr].
+
+Lemma writer_norows : forall sep hdr keys, allowed sep ->
+  csv_write sep hdr [] = Ok [] /\ csv_load sep keys [] = Err ParsingError /\
+  (forall K, (0 < K)%nat -> csv_load_stream K sep keys [] = Err ParsingError).
+Proof.
+  intros sep hdr keys A. unfold csv_write, csv_save, csv_load, csv_load_stream.
+  rewrite (allowed_validate sep A). cbn [negb map save_rows writer_new string_writer_new w_out].
+  split; [reflexivity|]. split; [reflexivity|]. intros K HK. destruct K as [|K]; [lia|]. reflexivity.
+Qed.
+
+Lemma writer_norows_refuted : ~ writer_norows_statement.
+Proof.
+  intros H. destruct (H 44 [[97]]) as (text & E & P); [cbn; auto | discriminate |].
+  vm_compute in E. inversion E. subst text. vm_compute in P. discriminate P.
+Qed.
+
+(* F18: the width check of the writers under SaveObject *)
 Definition writer_width_statement : Prop :=
   forall k sep hdr (rows : list record), allowed sep -> ragged rows ->
   csv_save k sep (map (with_keys hdr) rows) = Err OutOfRange.
 
-Lemma writer_rfc_refuted : ~ writer_rfc_statement.
-Proof.
-  intros H. destruct csv_write_rfc_refuted as (sep & hdr & rows & A & R & Hh & U & N).
-  apply N. apply H; assumption.
-Qed.
-
-Lemma writer_quotes_refuted : ~ writer_quotes_iff_needed_statement.
-Proof.
-  intros H. destruct csv_write_min_refuted as (sep & hdr & rows & A & R & Hh & U & N).
-  apply N. apply H; assumption.
-Qed.
-
-Lemma reader_rfc_refuted : ~ reader_rfc_statement.
-Proof.
-  intros H. destruct csv_load_rfc_refuted as (sep & chs & final & hdr & rows & text & keys & A & ND & U & R & N).
-  apply N. apply (H sep chs final); assumption.
-Qed.
-
-Lemma reader_width_refuted : ~ reader_width_statement.
-Proof.
-  intros H. destruct csv_load_width_refuted as (sep & chs & final & hdr & recs & text & keys & A & R & E & N).
-  apply N. apply (H sep chs final hdr recs); assumption.
-Qed.
-
-(* F18: every ragged table ends in std::terminate under SaveObject, so the statement fails on all of its domain *)
 Lemma writer_width_all_terminate : forall k sep hdr (rows : list record), allowed sep -> ragged rows ->
   csv_save k sep (map (with_keys hdr) rows) = Terminate /\
   writer_run k true sep (map (with_keys hdr) rows) = Err OutOfRange.
@@ -86,114 +84,70 @@ Proof.
   discriminate E.
 Qed.
 
-(* non-vacuity *)
+(* ---------- readers ---------- *)
+
+Lemma reader_rfc : forall sep chs final hdr rows text keys, allowed sep -> NoDup hdr -> uniform hdr rows ->
+  render sep chs final (hdr :: rows) = Some text ->
+  csv_load sep keys text = Ok (select hdr keys rows).
+Proof. exact csv_load_rfc. Qed.
+
+Lemma reader_rfc_stream : forall K sep chs final hdr rows text keys,
+  (0 < K)%nat -> allowed sep -> NoDup hdr -> uniform hdr rows ->
+  render sep chs final (hdr :: rows) = Some (stream_payload K text) ->
+  csv_load_stream K sep keys text = Ok (select hdr keys rows).
+Proof. exact csv_load_stream_rfc. Qed.
+
+Lemma reader_width : forall sep chs final hdr recs text keys, allowed sep ->
+  render sep chs final (hdr :: recs) = Some text -> Exists (fun r => length r <> length hdr) recs ->
+  csv_load sep keys text = Err ParsingError.
+Proof. exact csv_load_width. Qed.
+
+Lemma reader_width_stream : forall K sep chs final hdr recs text keys, (0 < K)%nat -> allowed sep ->
+  render sep chs final (hdr :: recs) = Some (stream_payload K text) -> Exists (fun r => length r <> length hdr) recs ->
+  csv_load_stream K sep keys text = Err ParsingError.
+Proof. exact csv_load_stream_width. Qed.
+
+Lemma reader_stream_eq_mem : forall K sep chs final t text keys, (0 < K)%nat -> allowed sep ->
+  render sep chs final t = Some (stream_payload K text) ->
+  csv_load_stream K sep keys text = csv_load sep keys (stream_payload K text).
+Proof. exact csv_load_stream_eq_mem. Qed.
+
+(* whatever the header names (duplicates included): the answers are those of the column cursor + find model read_spec *)
+Lemma reader_any_header : forall sep chs final hdr rows text keys, allowed sep -> uniform hdr rows ->
+  render sep chs final (hdr :: rows) = Some text ->
+  csv_load sep keys text = Ok (map (fun row => read_spec hdr row keys 0) rows).
+Proof.
+  intros sep chs final hdr rows text keys A U R. rewrite (csv_load_render sep chs final hdr rows text keys A R).
+  unfold load_expect. rewrite (widths_ok_uniform _ _ U). reflexivity.
+Qed.
+
+(* the stream payload of a text without byte order mark is the text; of BOM ++ text it is text (K >= 3) *)
+Lemma stream_payload_plain K text : starts_with_bom (firstn K text) = false -> stream_payload K text = text.
+Proof. unfold stream_payload. intros ->. reflexivity. Qed.
+
+Lemma stream_payload_bom K text : (3 <= K)%nat -> stream_payload K (utf8_bom ++ text) = text.
+Proof.
+  intros HK. unfold stream_payload, utf8_bom. destruct K as [|[|[|K]]]; try lia. reflexivity.
+Qed.
+
+(* ---------- non-vacuity ---------- *)
+
 Lemma example_write :
-  csv_write 44 [[110]; [118]] [[[97; 34; 98]; [49; 44; 50]]; [[]; [120; 10; 121]]] =
+  csv_write 44 [[110]; [118]] [[[97; 34; 98]; [49; 44; 50]]; [[]; [120; 13; 121]]] =
   Ok [110; 44; 118; 13; 10;
       34; 97; 34; 34; 98; 34; 44; 34; 49; 44; 50; 34; 13; 10;
-      44; 34; 120; 10; 121; 34; 13; 10].
+      44; 34; 120; 13; 121; 34; 13; 10].
 Proof. vm_compute. reflexivity. Qed.
 
 Lemma example_load :
-  csv_load 59 [[98]; [97]; [122]] [97; 59; 98; 10; 34; 120; 34; 34; 59; 34; 59; 34; 49; 34; 13; 10; 59; 10] =
+  csv_load 59 [[98]; [97]; [122]] [97; 59; 98; 10; 34; 120; 34; 34; 59; 34; 59; 34; 49; 34; 13; 10; 59] =
   Ok [[Some [49]; Some [120; 34; 59]; None]; [Some []; Some []; None]].
 Proof. vm_compute. reflexivity. Qed.
 
-Lemma example_width : csv_load 44 [[97]] [97; 44; 98; 13; 10; 49; 13; 10] = Err ParsingError.
+Lemma example_width : csv_load 44 [[97]] [97; 44; 98; 13; 10; 49; 44; 50; 44] = Err ParsingError.
 Proof. vm_compute. reflexivity. Qed.
 
-(* ---------- the stream reader ---------- *)
-
-(* the payload is what is left of the stream after the UTF-8 byte order mark, if the first chunk starts with one *)
-Definition stream_reader_rfc_statement : Prop :=
-  forall K sep chs final hdr rows text keys, (0 < K)%nat -> allowed sep -> NoDup hdr -> uniform hdr rows ->
-  render sep chs final (hdr :: rows) = Some (stream_payload K text) ->
-  csv_load_stream K sep keys text = Ok (select hdr keys rows).
-
-Lemma stream_reader_rfc_refuted : ~ stream_reader_rfc_statement.
-Proof.
-  intros H.
-  specialize (H chunk_size 44 [mkChoice [false; false] EolCRLF; mkChoice [false; true] EolCRLF] true
-                [[97]; [98]] [[[49]; [50]]] [97; 44; 98; 13; 10; 49; 44; 34; 50; 34; 13; 10] [[97]; [98]]).
-  rewrite stream_f23_witness in H. discriminate H.
-  - unfold chunk_size. lia.
-  - cbn. auto.
-  - repeat constructor; cbn; intuition discriminate.
-  - repeat constructor.
-  - reflexivity.
-Qed.
-
-(* F25 alone also refutes it: nothing escaped outside the first column, the first column requested twice *)
-Lemma stream_reader_rfc_refuted_f25 : exists K sep chs final hdr rows text keys,
-  (0 < K)%nat /\ allowed sep /\ NoDup hdr /\ uniform hdr rows /\
-  render sep chs final (hdr :: rows) = Some (stream_payload K text) /\
-  csv_load_stream K sep keys text <> Ok (select hdr keys rows).
-Proof.
-  exists chunk_size, 44, [mkChoice [false; false] EolCRLF; mkChoice [true; false] EolCRLF], false,
-         [[97]; [98]], [[[102; 111; 111]; [120]]], [97; 44; 98; 13; 10; 34; 102; 111; 111; 34; 44; 120], [[97]; [97]].
-  split; [unfold chunk_size; lia|]. split; [cbn; auto|].
-  split; [repeat constructor; cbn; intuition discriminate|]. split; [repeat constructor|].
-  split; [reflexivity|]. rewrite stream_f25_witness. discriminate.
-Qed.
-
-Lemma stream_reader_rfc_outside : forall K sep chs final hdr rows text keys,
-  (0 < K)%nat -> allowed sep -> NoDup hdr -> uniform hdr rows ->
-  render sep chs final (hdr :: rows) = Some (stream_payload K text) ->
-  chs_ok hdr keys (tl chs) = true ->
-  csv_load_stream K sep keys text = Ok (select hdr keys rows).
-Proof.
-  intros K sep chs final hdr rows text keys HK A ND U R Hok.
-  rewrite (csv_load_stream_render K sep chs final hdr rows text keys HK A ND R Hok).
-  rewrite (widths_ok_uniform _ _ U). reflexivity.
-Qed.
-
-Lemma stream_width_outside : forall K sep chs final hdr recs text keys,
-  (0 < K)%nat -> allowed sep -> NoDup hdr ->
-  render sep chs final (hdr :: recs) = Some (stream_payload K text) ->
-  Exists (fun r => length r <> length hdr) recs ->
-  chs_ok hdr keys (tl chs) = true ->
-  csv_load_stream K sep keys text = Err ParsingError.
-Proof.
-  intros K sep chs final hdr recs text keys HK A ND R E Hok.
-  rewrite (csv_load_stream_render K sep chs final hdr recs text keys HK A ND R Hok).
-  rewrite (widths_ok_ragged _ _ E). reflexivity.
-Qed.
-
-(* the stream reader has no F24: a text that ends with the separator keeps its last empty field *)
-Lemma stream_no_f24 :
-  csv_load_stream chunk_size 44 [[97]; [98]] [97; 44; 98; 13; 10; 102; 111; 111; 44] = Ok [[Some [102; 111; 111]; Some []]].
+Lemma example_render :
+  render 44 [mkChoice [false; true] EolLF; mkChoice [true; false] EolCRLF] false [[[97]; [98]]; [[34]; []]] =
+  Some [97; 44; 34; 98; 34; 10; 34; 34; 34; 34; 44].
 Proof. vm_compute. reflexivity. Qed.
-
-(* the conditions under which a row is served, in words: chs_ok holds when in every data row no requested column other
-   than the first is escaped and an escaped first column is requested at most once *)
-Lemma chs_ok_sufficient hdr keys chs :
-  (forall ch, In ch chs ->
-     (forall (j : nat) (k : field), In k keys -> nth_error hdr (S j) = Some k -> nth (S j) (ch_quotes ch) false = false) /\
-     (hd false (ch_quotes ch) = true -> forall k0 : field, nth_error hdr 0%nat = Some k0 ->
-        (count_occ field_eq_dec keys k0 <= 1)%nat)) ->
-  chs_ok hdr keys chs = true.
-Proof.
-  intros H. unfold chs_ok. apply forallb_forall. intros ch Hin. destruct (H ch Hin) as [C1 C0].
-  apply keys_ok_sufficient; assumption.
-Qed.
-
-Lemma writer_rfc_outside : forall sep hdr rows,
-  allowed sep -> rows <> [] -> hdr <> [] -> uniform hdr rows ->
-  has_f21 sep (hdr :: rows) = false ->
-  exists text, csv_write sep hdr rows = Ok text /\ rfc_parse sep text = Some (hdr :: rows).
-Proof. intros sep hdr rows A R H U N. apply csv_write_rfc_outside; try assumption. apply no_f21_iff. exact N. Qed.
-
-Lemma writer_quotes_outside : forall sep hdr rows,
-  allowed sep -> rows <> [] -> hdr <> [] -> uniform hdr rows ->
-  has_f21 sep (hdr :: rows) = false ->
-  exists text, csv_write sep hdr rows = Ok text /\
-    render sep (map (min_choice sep) (hdr :: rows)) true (hdr :: rows) = Some text.
-Proof. intros sep hdr rows A R H U N. apply csv_write_is_min_rendering; try assumption. apply no_f21_iff. exact N. Qed.
-
-Lemma writer_stream_same : forall bom sep hdr rows, allowed sep -> rows <> [] -> uniform hdr rows ->
-  exists text, csv_write sep hdr rows = Ok text /\
-               csv_write_stream bom sep hdr rows = Ok ((if bom then utf8_bom else []) ++ text).
-Proof.
-  intros bom sep hdr rows A R U. exists (lib_text sep (hdr :: rows)).
-  split; [apply csv_write_closed | apply csv_write_stream_closed]; assumption.
-Qed.
